@@ -1914,6 +1914,7 @@ def run(ctx):
     B, T = Batch(), Tally()
     witnesses(ctx, E)
     reuse_oracle(ctx, E)
+    curve_par_rate_oracle(ctx, E, pool)
     for name, fn, nq, nt in COMPONENTS:
         run_component(ctx, E, pool, B, T, name, fn, nq if ctx.quick() else nt, drivers_ok, spec_ok)
     ctx.assumptions += [
@@ -1937,6 +1938,58 @@ def run(ctx):
                                              'by Props/C06e against Gen/SwapsR (regenerated from the source every run)'],
                     RULE)
 
+
+
+def curve_par_rate_oracle(ctx, E, pool):
+    """DiscountCurve.swap_rate(effective, maturity | [maturities]) is the library's own 'reported par rate' on a curve
+    (used by the curve reports and by the par-rate risk engine): for each maturity it must be (df(effective) - df(maturity))
+    / sum(accrual x df(payment)) over the unadjusted schedule, whether the maturity is asked alone or as one element of a
+    list, in any order (seed C06-11: per-maturity initialisation hoisted out of the loop over maturities)."""
+    rng = ctx.rng('curve-par-rate')
+    DT, FT = E.DayCountTypes, E.FrequencyTypes
+    n = 60 if ctx.quick() else 800
+    cnt = 0
+    for i in range(n):
+        d, m, y = D.interesting_dates(rng, 1, 2004, 2040)[0]
+        vd = E.Date(d, m, y)
+        eff = vd.add_days(rng.choice([0, 0, 2, 30, 400]))
+        _, crv = draw_curve(E, rng, pool, vd, vd)
+        if crv.value_dt > eff:
+            eff = crv.value_dt.add_days(rng.choice([0, 2, 30]))
+        fq = rng.choice([FT.ANNUAL, FT.SEMI_ANNUAL, FT.QUARTERLY, FT.MONTHLY])
+        dc = rng.choice([DT.THIRTY_E_360, DT.ACT_360, DT.ACT_365F, DT.ACT_ACT_ISDA, DT.THIRTY_360_BOND])
+        mats = [eff.add_months(rng.choice([1, 3, 6, 7, 12, 18, 24, 60, 120, 121])) for _ in range(rng.choice([1, 2, 2, 3, 5]))]
+        case = {'curve_value_dt': ser(crv.value_dt), 'curve': type(crv).__name__, 'effective': ser(eff),
+                'maturities': [ser(x) for x in mats], 'freq': fq.name, 'dc': dc.name}
+        try:
+            got = [float(x) for x in crv.swap_rate(eff, list(mats), fq, dc)]
+            alone = [float(crv.swap_rate(eff, x, fq, dc)[0]) for x in mats]
+            one = [float(crv.swap_rate(eff, [x], fq, dc)[0]) for x in mats]
+        except E.FinError:
+            continue
+        want = []
+        for x in mats:
+            fl = E.Schedule(eff, x, fq).generate()
+            fl[0] = eff
+            dcc, pv01, prev = E.DayCount(dc), 0.0, eff
+            for nx in fl[1:]:
+                pv01 += dcc.year_frac(prev, nx)[0] * float(crv.df(nx))
+                prev = nx
+            want.append((float(crv.df(eff)) - float(crv.df(fl[-1]))) / pv01 if abs(pv01) >= G_SMALL else 0.0)
+        cnt += 1
+        for k in range(len(mats)):
+            sc = max(abs(want[k]), 1e-4)
+            if got[k] != alone[k] or one[k] != alone[k]:
+                ctx.violation('DiscountCurve.swap_rate: the par rate of a maturity asked as one element of a list differs from the '
+                              'par rate of the same maturity asked alone', dict(case, element=k, in_list=got[k], alone=alone[k],
+                                                                                  one_element_list=one[k], expected=want[k]),
+                              clause='curve-par-rate')
+                break
+            if abs(alone[k] - want[k]) > 1e-11 * sc + 1e-15:
+                ctx.violation('DiscountCurve.swap_rate is not (df(effective) - df(maturity)) / sum(accrual x df(payment))',
+                              dict(case, element=k, swap_rate=alone[k], expected=want[k]), clause='curve-par-rate')
+                break
+    ctx.count('curve_par_rate (DiscountCurve.swap_rate, scalar / list)', cnt, cnt, sample={'how': 'regenerated from VERIF_SEED'})
 
 
 def reuse_oracle(ctx, E):
